@@ -1,1 +1,27 @@
 pub mod c01;
+pub mod c15;
+
+use crate::drivers::Case;
+use crate::engine::Violation;
+use serde_json::Value;
+
+pub fn run_check(id: &str, tier: &str, seed: u64) -> Option<i32> {
+    Some(match id {
+        "C01" => c01::run(tier, seed),
+        "C15" => c15::run(tier, seed),
+        _ => return None,
+    })
+}
+
+fn case_of(replay: &Value) -> Result<Case, String> {
+    serde_json::from_value(replay["case"].clone()).map_err(|e| format!("case: {e}"))
+}
+
+/// Re-execute one recorded counterexample against the real code, no explorer involved.
+pub fn replay(replay: &Value) -> Result<Vec<Violation>, String> {
+    Ok(match replay["check"].as_str().unwrap_or("") {
+        "C01" => c01::replay(&case_of(replay)?),
+        "C15" => c15::replay(replay["input"].as_str().ok_or("input")?),
+        other => return Err(format!("unknown replay kind `{other}`")),
+    })
+}
